@@ -595,6 +595,27 @@ def api_case(seed, nsteps=8):
         o1, _ = jstep_ov(b1, own_ss, own_out)
         d1, _ = jstep(b1)
         chk(f"[{tag}] step(override = supervisor's own result) vs step()", o1, d1)
+        # J: switching the driving API in the middle (Props/C09 runs_then_reset_steps): run^m ; reset ; step^(n-m)  ==  reset ; step^n
+        m = rng.randint(0, n)
+        j = gs
+        for _ in range(m):
+            j = jr(j)
+        j, _ = jreset(j)
+        for _ in range(n - m):
+            j, _ = jstep(j)
+        chk(f"[{tag}] run^{m};reset;step^{n - m} vs reset;step^{n}", j, b)
+        # K: a rollout cut in two (rollout_split, rolloutTraj_append)
+        c1 = g.rollout(gs, max_steps=m, carry_only=True)
+        c2 = g.rollout(c1, max_steps=n - m, carry_only=True)
+        chk(f"[{tag}] rollout({m});rollout({n - m}) vs rollout({n})", c2, c)
+        if 0 < m < n:
+            t2 = g.rollout(c1, max_steps=n - m, carry_only=False)
+            chk(f"[{tag}] trajectory of the second part vs tail of the full trajectory", t2, jax.tree_util.tree_map(lambda x: x[m:], traj))
+        # L: finishing the supervisor after reset;step^(n-1) is run^n (reset_steps_supervisor_eq_runs)
+        l, _ = jreset(gs)
+        for _ in range(n - 1):
+            l, _ = jstep(l)
+        chk(f"[{tag}] run_supervisor(reset;step^{n - 1}) vs run^{n}", g.run_supervisor(l), a)
     # F: vmap over starting episodes
     es = [rng.randrange(g.max_eps) for _ in range(3)]
     n = max(1, g.max_steps // 2)
